@@ -159,8 +159,20 @@ def gen_plan(streams, tier):
         n = rnd.choice((rnd.randrange(1, 6), rnd.randrange(5, 20), rnd.randrange(15, 40), rnd.randrange(30, 61)))
         how = "file" if rnd.random() < 0.15 else "string"
         objs.append({"seq": gen_seq(rnd, n), "how": how})
-    if nobj > 1 and rnd.random() < 0.3:
-        objs[1] = dict(objs[0])        # same string twice: a value cached on A must not leak to B
+    if nobj > 1:
+        x = rnd.random()
+        s0 = objs[0]["seq"]
+        if x < 0.2:
+            objs[1] = dict(objs[0])        # same string twice: a value cached on A must not leak to B
+        elif x < 0.4:                      # same composition, different order
+            l = list(s0)
+            rnd.shuffle(l)
+            objs[1] = {"seq": "".join(l), "how": "string"}
+        elif x < 0.55:                     # same length, different composition
+            objs[1] = {"seq": gen_seq(rnd, len(s0)), "how": "string"}
+        elif x < 0.65:                     # one substitution
+            j = rnd.randrange(len(s0))
+            objs[1] = {"seq": s0[:j] + rnd.choice(AA) + s0[j + 1:], "how": "string"}
     p_invalid = rnd.choice((0.0, 0.15, 0.4))
     p_mut = rnd.choice((0.0, 0.05, 0.15))
     p_pattern = rnd.choice((0.1, 0.3))
